@@ -1657,9 +1657,7 @@ class H2Connection:
             # remote peer now believes exists.
             if (self._stream_closed_by(frame.stream_id) ==
                     StreamClosedBy.SEND_RST_STREAM):
-                f = RstStreamFrame(frame.promised_stream_id)
-                f.error_code = ErrorCodes.REFUSED_STREAM
-                return [f], events
+                return self._refuse_pushed_stream(frame), events
 
             raise ProtocolError("Attempted to push on closed stream.")
 
@@ -1681,9 +1679,7 @@ class H2Connection:
             # The parent stream was reset by us, so we presume that
             # PUSH_PROMISE was in flight when we reset the parent stream.
             # So we just reset the new stream.
-            f = RstStreamFrame(frame.promised_stream_id)
-            f.error_code = ErrorCodes.REFUSED_STREAM
-            return [f], events
+            return self._refuse_pushed_stream(frame), events
 
         new_stream = self._begin_new_stream(
             frame.promised_stream_id, AllowedStreamIDs.EVEN
@@ -1692,6 +1688,25 @@ class H2Connection:
         new_stream.remotely_pushed(pushed_headers)
 
         return frames, events + stream_events
+
+    def _refuse_pushed_stream(self, frame):
+        """
+        Refuses a stream that was promised on a stream we have already reset.
+        The peer may well have sent frames on the promised stream before it
+        sees our RST_STREAM: remember the stream as one that we reset, so that
+        those frames are treated like any other frame racing a reset.
+        """
+        promised_stream_id = frame.promised_stream_id
+        if (promised_stream_id % 2 == 0 and
+                promised_stream_id > self.highest_inbound_stream_id):
+            self.highest_inbound_stream_id = promised_stream_id
+            self._closed_streams[promised_stream_id] = (
+                StreamClosedBy.SEND_RST_STREAM
+            )
+
+        f = RstStreamFrame(promised_stream_id)
+        f.error_code = ErrorCodes.REFUSED_STREAM
+        return [f]
 
     def _handle_data_on_closed_stream(self, events, exc, frame):
         # This stream is already closed - and yet we received a DATA frame.
